@@ -158,8 +158,8 @@ def obligations(ctx):
         fixed_by_ctor = {k for k in ("sign", "value") if k not in own_params}
         where = f"{w.file}:{w.node.lineno} {w.qualname} / {r.qualname}"
         ctx.touched |= {w.qualname, r.qualname}
-        lost = sorted(written - read - {"type"} - fixed_by_ctor)
-        phantom = sorted(read - written - {"type"})
+        lost = sorted(map(str, written - read - {"type"} - fixed_by_ctor))
+        phantom = sorted(map(str, read - written - {"type"}))
         if lost:
             obs.append(Ob(f"E3.keys:{c.qualname}", "E3.key-agreement", where, "violation",
                           f"keys {lost} are written by {w.qualname} but never read by {r.qualname}: that state is lost in a round trip",
